@@ -36,7 +36,10 @@ use serde_json::{Value, json};
 pub mod alloc;
 pub mod gens;
 
-pub const VERIF_ROOT: &str = "/verif";
+/// Root of the verification tree (`/verif`; overridable for scratch sandboxes).
+pub fn verif_root() -> String {
+    std::env::var("VERIF_ROOT").unwrap_or_else(|_| "/verif".to_string())
+}
 
 // ---------------------------------------------------------------------------
 // failure description
@@ -173,7 +176,7 @@ pub struct KnownFinding {
 }
 
 pub fn load_known_findings(id: &str) -> Vec<KnownFinding> {
-    let path = format!("{VERIF_ROOT}/known-findings.jsonl");
+    let path = format!("{}/known-findings.jsonl", verif_root());
     let Ok(text) = std::fs::read_to_string(path) else {
         return vec![];
     };
@@ -405,7 +408,7 @@ impl Check {
     }
 
     fn replay_dir(&self) -> PathBuf {
-        PathBuf::from(format!("{VERIF_ROOT}/replays/{}", self.id))
+        PathBuf::from(format!("{}/replays/{}", verif_root(), self.id))
     }
 
     fn write_replay<C: Serialize>(&self, stage: &str, fail: &Fail, case: &C) -> PathBuf {
@@ -818,10 +821,10 @@ impl Check {
             "wall_s": (wall * 1000.0).round() / 1000.0,
             "violations": self.violations.len(),
         });
-        let dir = format!("{VERIF_ROOT}/evidence");
+        let dir = format!("{}/evidence", verif_root());
         let _ = std::fs::create_dir_all(&dir);
         let path = format!("{dir}/{}.json", self.id);
-        if self.only_stage.is_none() {
+        if self.only_stage.is_none() && std::env::var_os("VERIF_NO_EVIDENCE").is_none() {
             std::fs::write(&path, serde_json::to_string_pretty(&ev).unwrap())
                 .expect("write evidence");
         }
@@ -910,7 +913,7 @@ where
         source_file: None,
         test_name: None,
         max_shrink_time: 0,
-        max_shrink_iters: 4096,
+        max_shrink_iters: 3000,
         max_default_size_range: 100,
         result_cache: proptest::test_runner::basic_result_cache,
         verbose: 0,
